@@ -494,8 +494,8 @@ def gen_scenarios(ctx):
                 nsub = (4 if quick else 30)
                 norder = 2 if quick else 4
             else:
-                nsub = (1 if quick else 10)
-                norder = 1 if quick else 3
+                nsub = ((1 if ty in ("T16", "U16") else 4) if quick else 10)
+                norder = (1 if ty in ("T16", "U16") else 2) if quick else 3
             if quick and P == 3 and ty in ("T16", "U16") and (r, c) != (3, 3):
                 nsub = 1 if rng.random() < 0.5 else 0
             nunk = sc.doc_unknowns_per_system(ty, r, c)
